@@ -27,8 +27,10 @@ IsAllowed(sig) == \E i \in 1..Len(Allowed) : Allowed[i] = sig
 
 VARIABLES l,      \* next trace line
           cm,     \* chip mode
-          prog    \* configuration items valid since the last cold start
-vars == <<l, cm, prog>>
+          prog,   \* configuration items valid since the last cold start
+          taint   \* signature of an open finding already matched in this history ("" if none): driver and chip
+                  \* are then known to be out of step and later clause 2/3 failures are its consequences
+vars == <<l, cm, prog, taint>>
 
 Chk(name, exp, obs) ==
     IF exp = obs THEN TRUE
@@ -36,6 +38,8 @@ Chk(name, exp, obs) ==
 ChkT(name, cond) ==
     IF cond THEN TRUE ELSE PrintT(<<"MISMATCH", l, name, "expected", TRUE, "observed", FALSE>>) /\ FALSE
 Known(sig, detail) == PrintT(<<"KNOWN", l, sig, detail>>)
+\* a clause violated while stepping the bus: a consequence of an already matched open finding, or a violation
+Viol(s, name) == IF s.taint # "" /\ IsAllowed(s.taint) THEN Known(s.taint, <<"consequence", name>>) ELSE ChkT(name, FALSE)
 
 \* ---------------------------------------------------------------- the abstract SX126x
 Asleep(c) == c \in {"sleep_warm", "sleep_cold"}
@@ -80,7 +84,7 @@ StepBus(s, b, call) ==
       IF Asleep(s.cm) THEN
           \* clause 2: a sleeping chip may only be woken (GetStatus on NSS); anything else is lost or corrupts the wake-up
           IF op = 192 THEN [s EXCEPT !.cm = "stdby"]
-          ELSE [s EXCEPT !.ok = ChkT(<<"C14-2 chip commanded while asleep without wake-up", call, w>>, FALSE)]
+          ELSE [s EXCEPT !.ok = Viol(s, <<"C14-2 chip commanded while asleep without wake-up", call, w>>)]
       ELSE
         CASE op = 132 ->                                                   \* SetSleep
                 IF (w[2] \div 4) % 2 = 1 THEN [s EXCEPT !.cm = "sleep_warm"]
@@ -88,8 +92,8 @@ StepBus(s, b, call) ==
           [] op = 128 -> [s EXCEPT !.cm = "stdby"]                          \* SetStandby
           [] op \in {131, 209, 197, 130, 148} ->                            \* SetTx / CW / SetCAD / SetRx / SetRxDutyCycle
                 LET missing == Needed(op, call) \ s.prog
-                    okc == ChkT(<<"C14-3 operation started without reprogramming after cold start", call, op, "missing", missing>>,
-                                missing = {})
+                    okc == IF missing = {} THEN TRUE
+                           ELSE Viol(s, <<"C14-3 operation started without reprogramming after cold start", call, op, "missing", missing>>)
                     newcm == CASE op = 131 -> "tx" [] op = 209 -> "cw" [] op = 197 -> "cad"
                                [] op = 148 -> "rxdc"
                                [] OTHER -> IF w[2] = 255 /\ w[3] = 255 /\ w[4] = 255 THEN "rxc" ELSE "rx"
@@ -104,34 +108,116 @@ StepBus(s, b, call) ==
                 IN IF done THEN [s EXCEPT !.cm = "stdby"] ELSE s
           [] OTHER -> [s EXCEPT !.prog = s.prog \cup ItemOf(w)]
 
-RECURSIVE RunBus(_, _, _, _)
-RunBus(s, bus, i, call) == IF i > Len(bus) THEN s ELSE RunBus(StepBus(s, bus[i], call), bus, i + 1, call)
+\* ---------------------------------------------------------------- the abstract SX1276 (datasheet sections 4.1, 6)
+\* Registers keep their content in sleep (no cold/warm distinction); only a reset loses the configuration.
+\* RegOpMode (0x01) bits 2..0 select the mode; the FIFO is not accessible in sleep mode.
+Items127(addr, n) ==
+    LET covers(a) == addr <= a /\ a < addr + n IN
+    (IF covers(8) THEN {"freq"} ELSE {})                      \* RegFrfLsb completes a frequency update
+    \cup (IF covers(9) THEN {"pa"} ELSE {})
+    \cup (IF covers(14) THEN {"txbase"} ELSE {})
+    \cup (IF covers(15) THEN {"rxbase"} ELSE {})
+    \cup (IF covers(29) THEN {"modem1"} ELSE {})
+    \cup (IF covers(30) THEN {"modem2"} ELSE {})
+    \cup (IF covers(33) THEN {"preamble"} ELSE {})
+    \cup (IF covers(34) THEN {"paylen"} ELSE {})
+    \cup (IF covers(57) THEN {"sync"} ELSE {})
+    \cup (IF covers(17) THEN {"irqmask"} ELSE {})
+Base127 == {"freq", "modem1", "modem2", "sync"}
+Needed127(mode, call) ==
+    CASE mode = 3 -> Base127 \cup {"pa", "txbase", "preamble", "paylen", "irqmask"}
+      [] mode \in {5, 6} -> IF call = "listen" THEN {"freq", "modem1"} ELSE Base127 \cup {"rxbase", "preamble", "irqmask"}
+      [] mode = 7 -> Base127 \cup {"irqmask"}
+      [] OTHER -> {}
+
+StepBus127(s, b, call) ==
+    IF b.t = "reset" THEN
+        IF b.ok = 1 THEN [s EXCEPT !.cm = "stdby", !.prog = {}] ELSE s
+    ELSE IF b.t # "spi" \/ b.ok = 0 THEN s
+    ELSE
+      LET w == b.w
+          isWrite == w[1] >= 128
+          addr == w[1] % 128
+          n == IF isWrite THEN Len(w) - 1 ELSE Len(b.r) IN
+      IF addr = 0 THEN        \* FIFO access
+          IF s.cm = "sleep"
+          THEN [s EXCEPT !.ok = Viol(s, <<"C14-2 FIFO accessed while the chip is asleep", call>>)]
+          ELSE s
+      ELSE IF isWrite /\ addr = 1 THEN       \* RegOpMode
+          LET mode == w[2] % 8
+              lora == w[2] >= 128
+              missing == Needed127(mode, call) \ s.prog
+              okc == IF mode \in {3, 5, 6, 7}
+                     THEN /\ (IF missing = {} THEN TRUE
+                              ELSE Viol(s, <<"C14-3 operation started without reprogramming after reset", call, mode, "missing", missing>>))
+                          /\ (IF lora THEN TRUE ELSE Viol(s, <<"C14-3 operation started outside LoRa mode", call, mode>>))
+                     ELSE TRUE
+              newcm == CASE mode = 0 -> "sleep" [] mode = 1 -> "stdby" [] mode = 3 -> "tx" [] mode = 5 -> "rxc"
+                         [] mode = 6 -> "rx" [] mode = 7 -> "cad" [] OTHER -> "fs"
+          IN [s EXCEPT !.cm = newcm, !.ok = s.ok /\ okc]
+      ELSE IF ~isWrite /\ addr = 18 /\ Len(b.r) >= 1 THEN      \* RegIrqFlags read: how the operation ended
+          LET f == b.r[1]
+              has(m) == (f \div m) % 2 = 1
+              done == CASE s.cm = "tx" -> has(8)
+                        [] s.cm = "rx" -> has(64) \/ has(128)
+                        [] s.cm = "cad" -> has(4)
+                        [] OTHER -> FALSE
+          IN IF done THEN [s EXCEPT !.cm = "stdby"] ELSE s
+      ELSE IF isWrite THEN [s EXCEPT !.prog = s.prog \cup Items127(addr, n)]
+      ELSE s
+
+\* "sx1262-lw" / "sx1276-lw": the same chips driven through the LoRaWAN radio adapter (lorawan_radio.rs)
+Is127(chip) == chip \in {"sx1276", "sx1276-lw"}
+RECURSIVE RunBus(_, _, _, _, _)
+RunBus(s, bus, i, call, chip) ==
+    IF i > Len(bus) THEN s
+    ELSE RunBus(IF Is127(chip) THEN StepBus127(s, bus[i], call) ELSE StepBus(s, bus[i], call), bus, i + 1, call, chip)
 
 \* ---------------------------------------------------------------- clauses on one API call
 ModeGate(call) ==
     CASE call = "tx" -> {"transmit"}
       [] call \in {"start_rx", "complete_rx", "switch_ch"} -> {"rx_single", "rx_cont", "rx_duty"}
       [] call = "cad" -> {"cad"}
+      \* adapter: rx_single / rx_continuous are start_rx + complete_rx on whatever setup_rx prepared
+      [] call \in {"lw_rx_single", "lw_rx_cont"} -> {"rx_single", "rx_cont", "rx_duty"}
       [] OTHER -> {}
+\* how a wrong-mode call may be refused (the adapter refuses with NoRxParams when setup_rx never succeeded)
+RefusalErrs(call) == IF call \in {"lw_rx_single", "lw_rx_cont"} THEN {"InvalidRadioMode", "NoRxParams"} ELSE {"InvalidRadioMode"}
+\* the operation failed or timed out (the adapter reports a reception time-out as an Ok value)
+Failed(e) == e.res = "err" \/ e.timed_out = 1
+\* an error during continuous reception leaves the decision to the caller (documented API contract)
+ContRx(e) == e.call \in {"complete_rx", "lw_rx_cont", "lw_rx_single"} /\ e.pre_mode = "rx_cont"
 
-\* refusals that happen before anything is attempted
-IsRefusal(e) == e.res = "err" /\ e.err \in {"InvalidRadioMode"}
+\* refusals that happen before anything is attempted: the wrong-mode refusal, and any other error returned
+\* without a single bus event that leaves the driver's belief as it was (e.g. the sx127x refusing duty-cycle
+\* reception in start_rx): chip and driver are exactly where the previous call left them, so clause 4 has
+\* nothing new to say about them
+IsRefusal(e) == e.res = "err" /\ (e.err \in RefusalErrs(e.call) \/ (e.bus = <<>> /\ e.fault < 0 /\ e.mode = e.pre_mode))
 
 \* the fault hit the very command that would have restored standby (a single fault cannot be survived there)
 FaultOnStandbyCmd(e) ==
     e.fault >= 0 /\ e.fault + 1 <= Len(e.bus)
-    /\ LET b == e.bus[e.fault + 1] IN (b.t = "spi" /\ b.w[1] = 128) \/ b.t = "rfoff"
+    /\ LET b == e.bus[e.fault + 1] IN
+          \/ b.t = "rfoff"
+          \/ (b.t = "spi" /\ ~Is127(e.chip) /\ b.w[1] = 128)
+          \/ (b.t = "spi" /\ Is127(e.chip) /\ b.w[1] = 129)
+
+\* the open finding S23 matches this call (injected bus fault, no standby / driver not reset)
+S23(e, s) ==
+    /\ Failed(e) /\ ~IsRefusal(e) /\ ~ContRx(e)
+    /\ ~(s.cm = "stdby" /\ e.mode = "standby") /\ ~FaultOnStandbyCmd(e)
+    /\ e.fault >= 0 /\ IsAllowed("phy-fault-no-standby:" \o e.call)
 
 CallOk(e, s) ==
     \* clause 1
     /\ IF ModeGate(e.call) # {} /\ e.pre_mode \notin ModeGate(e.call)
-       THEN /\ Chk(<<"C14-1 wrong-mode call refused", e.call, e.pre_mode>>, "InvalidRadioMode", e.err)
+       THEN /\ ChkT(<<"C14-1 wrong-mode call refused", e.call, e.pre_mode, e.res, e.err>>, e.res = "err" /\ e.err \in RefusalErrs(e.call))
             /\ Chk(<<"C14-1 wrong-mode call made no bus traffic", e.call>>, <<>>, e.bus)
        ELSE TRUE
     \* clauses 2 and 3 were evaluated while stepping the bus
     /\ s.ok
     \* clause 4
-    /\ IF e.res = "err" /\ ~IsRefusal(e) /\ ~(e.call = "complete_rx" /\ e.pre_mode = "rx_cont")
+    /\ IF Failed(e) /\ ~IsRefusal(e) /\ ~ContRx(e)
        THEN IF s.cm = "stdby" /\ e.mode = "standby" THEN TRUE
             ELSE IF FaultOnStandbyCmd(e) THEN TRUE
             \* KNOWN FINDING (open, DESIGN 9 S23): an injected bus fault (not a timeout / interrupt error, which the
@@ -144,15 +230,18 @@ CallOk(e, s) ==
     /\ Chk("no panic", FALSE, e.res = "panic")
 
 Ev(e) ==
-    IF e.skipped = 1 THEN UNCHANGED <<cm, prog>>
-    ELSE LET s0 == IF e.first = 1 THEN [cm |-> "stdby", prog |-> {}, ok |-> TRUE] ELSE [cm |-> cm, prog |-> prog, ok |-> TRUE]
-             s == RunBus(s0, e.bus, 1, e.call)
+    IF e.skipped = 1 THEN UNCHANGED <<cm, prog, taint>>
+    ELSE LET t0 == IF e.first = 1 THEN "" ELSE taint
+             s0 == IF e.first = 1 THEN [cm |-> "stdby", prog |-> {}, ok |-> TRUE, taint |-> ""]
+                   ELSE [cm |-> cm, prog |-> prog, ok |-> TRUE, taint |-> t0]
+             s == RunBus(s0, e.bus, 1, e.call, e.chip)
          IN \* histories are independent: a violated clause is printed (the runner reports it with the
             \* history) and validation continues with the chip model stepped by what was really sent
             /\ IF CallOk(e, s) THEN TRUE ELSE TRUE
             /\ cm' = s.cm /\ prog' = s.prog
+            /\ taint' = IF S23(e, s) \/ (FaultOnStandbyCmd(e) /\ e.res = "err") THEN "phy-fault-no-standby:" \o e.call ELSE t0
 
-Init == l = 1 /\ cm = "stdby" /\ prog = {}
+Init == l = 1 /\ cm = "stdby" /\ prog = {} /\ taint = ""
 Next == l <= Len(Rec) /\ Ev(Rec[l]) /\ l' = l + 1
 Spec == Init /\ [][Next]_vars
 
